@@ -10,13 +10,6 @@ PJ(st) == [st |-> st.st, pending |-> [p \in Peer |-> SeqOf(st.pending[p])], flag
            restarting |-> st.restarting, timer |-> st.timer]
 PO(o) == [complete |-> SeqOf(o.complete), start |-> o.start, end |-> o.end, rest |-> SeqOf(o.rest)]
 OpJ(o) == IF o.k = "est" THEN [k |-> "est", p |-> o.p, fams |-> SeqOf(o.fams)] ELSE o
-\* behaviours WITH route arrivals, for the replay of the driver glue (tlc -simulate, one worker)
-GenNextR == \E op \in Ops : /\ Enabled(s, op) /\ s' = Step(s, op) /\ act' = op /\ pre' = s
-GenSpecR == GenInit /\ [][GenNextR]_<<s, pre, act>>
-EmitWalk == \/ act.k = "init"
-            \/ PrintT(ToJson([lvl |-> TLCGet("level"), op |-> OpJ(act),
-                               post |-> [st |-> s.st, pending |-> [p \in Peer |-> SeqOf(s.pending[p])], timer |-> s.timer,
-                                         restarting |-> s.restarting, ann |-> s.ann]]))
 EmitEdge == \/ act.k = "init"
             \/ PrintT(ToJson([pre |-> PJ(pre), op |-> OpJ(act), post |-> PJ(s), obs |-> PO(Out(pre, act))]))
 =============================================================================
